@@ -116,33 +116,47 @@ def addForm (C : Cat N I F V S) (σ : Sched N I) (s : St N I F V S) (f : F) (inp
       queue := σ.sortQ (s.queue ++ C.required f)
       solving := s.solving ++ (C.required f).filter (fun n => !(s.solving.contains n)) }
 
+/-- the `except UnmetDependency` branch up to (not including) `add_unmet`: make sure the line `m`
+that was read is being solved, loading its form if necessary -/
+def demand (C : Cat N I F V S) (σ : Sched N I) (s : St N I F V S) (m : N) :
+    Res N I F (St N I F V S) :=
+  if m ∈ s.solving then .ok s else
+    let loaded : Res N I F (St N I F V S) :=
+      if m ∈ s.fmap then .ok s else
+        match C.formOfN m with
+        | none => .error .badName
+        | some f => addForm C σ s f false
+    match loaded with
+    | .error e => .error e
+    | .ok s1 =>
+      if m ∈ s1.fmap then
+        .ok { s1 with queue := σ.sortQ (s1.queue ++ [m]), solving := s1.solving ++ [m] }
+      else .error (.noSuchField m)
+
 /-- `_attempt_field(field)`. `fuel` bounds the `MissingInputSpecification` retry chain (Python:
 the recursion limit). -/
 def attemptField (C : Cat N I F V S) (σ : Sched N I) :
     Nat → St N I F V S → N → Res N I F (St N I F V S)
   | 0, _, _ => .error .specFuel
   | fuel + 1, s, n =>
-    let s := { s with log := .attempt n :: s.log }
     match s.attempt C n with
-    | .val x => .ok { s with v := assocSet s.v n x, fdeps := s.fdeps.meet n }
-    | .needV m => do
-      let s ← if m ∈ s.solving then pure s else do
-        let s ← if m ∈ s.fmap then pure s else
-          match C.formOfN m with
-          | none => throw .badName
-          | some f => addForm C σ s f false
-        if m ∈ s.fmap then
-          pure { s with queue := σ.sortQ (s.queue ++ [m]), solving := s.solving ++ [m] }
-        else throw (.noSuchField m)
-      pure { s with fdeps := s.fdeps.addUnmet m n }
-    | .needI x => .ok { s with ideps := s.ideps.addUnmet x n }
+    | .val x =>
+      .ok { s with v := assocSet s.v n x, fdeps := s.fdeps.meet n, log := .attempt n :: s.log }
+    | .needV m =>
+      match demand C σ s m with
+      | .error e => .error e
+      | .ok s1 => .ok { s1 with fdeps := s1.fdeps.addUnmet m n, log := .attempt n :: s1.log }
+    | .needI x => .ok { s with ideps := s.ideps.addUnmet x n, log := .attempt n :: s.log }
     | .needSpec x =>
       match C.formOfI x with
       | none => .error .badName
-      | some f => do
-        let s ← addForm C σ s f true
-        if x ∈ s.specs then attemptField C σ fuel s n else throw (.recursion x)
-    | .notImpl => .ok { s with unimpl := s.unimpl ++ [n] }
+      | some f =>
+        match addForm C σ s f true with
+        | .error e => .error e
+        | .ok s1 =>
+          if x ∈ s1.specs then attemptField C σ fuel { s1 with log := .attempt n :: s1.log } n
+          else .error (.recursion x)
+    | .notImpl => .ok { s with unimpl := s.unimpl ++ [n], log := .attempt n :: s.log }
     | .invalid x => .error (.invalidInput x)
     | .noForm f => .error (.noForm n f)
     | .err c => .error (.lineErr n c)
@@ -157,14 +171,16 @@ def attemptInput (C : Cat N I F V S) (P : Nat → I → List N → Option S) (s 
   match s.ideps.unmetDependents x with
   | none => .error .trackerCrash
   | some neededBy =>
-    let ans := P s.nprompts x neededBy
-    let s := { s with nprompts := s.nprompts + 1, log := .prompt x neededBy ans :: s.log }
-    match ans with
+    match P s.nprompts x neededBy with
     | some str =>
       match C.parse x str with
       | none => .error (.invalidAnswer x)
-      | some _ => .ok { s with inp := assocSet s.inp x str, ideps := s.ideps.meet x }
-    | none => .ok { s with refused := true }
+      | some _ =>
+        .ok { s with inp := assocSet s.inp x str, ideps := s.ideps.meet x,
+                     nprompts := s.nprompts + 1, log := .prompt x neededBy (some str) :: s.log }
+    | none =>
+      .ok { s with refused := true, nprompts := s.nprompts + 1,
+                   log := .prompt x neededBy none :: s.log }
 
 /-- `while len(self._unattempted_fields) > 0: self._attempt_field(self._unattempted_fields.pop())` -/
 def drainQueue (C : Cat N I F V S) (σ : Sched N I) :
@@ -173,65 +189,81 @@ def drainQueue (C : Cat N I F V S) (σ : Sched N I) :
   | fuel + 1, s =>
     match s.queue.getLast? with
     | none => .ok (some s)
-    | some n => do
-      let s ← attemptField C σ specFuel { s with queue := s.queue.dropLast } n
-      drainQueue C σ fuel s
+    | some n =>
+      match attemptField C σ specFuel { s with queue := s.queue.dropLast } n with
+      | .error e => .error e
+      | .ok s1 => drainQueue C σ fuel s1
 
 def attemptAll (C : Cat N I F V S) (σ : Sched N I) :
     List N → St N I F V S → Res N I F (St N I F V S)
   | [], s => .ok s
-  | n :: ns, s => do
-    let s ← attemptField C σ specFuel s n
-    attemptAll C σ ns s
+  | n :: ns, s =>
+    match attemptField C σ specFuel s n with
+    | .error e => .error e
+    | .ok s1 => attemptAll C σ ns s1
 
 /-- the prompt loop with its `break` on refusal -/
 def promptAll (C : Cat N I F V S) (P : Nat → I → List N → Option S) :
     List I → St N I F V S → Res N I F (St N I F V S)
   | [], s => .ok s
-  | x :: xs, s => do
-    let s ← attemptInput C P s x
-    if s.refused then pure s else promptAll C P xs s
+  | x :: xs, s =>
+    match attemptInput C P s x with
+    | .error e => .error e
+    | .ok s1 => if s1.refused then .ok s1 else promptAll C P xs s1
 
 def loopCond (s : St N I F V S) : Bool :=
   !s.queue.isEmpty || s.ideps.hasMet || (s.ideps.hasUnmet && !s.refused) || s.fdeps.hasMet
 
 /-- one pass through the body of the outer `while` -/
 def iteration (C : Cat N I F V S) (σ : Sched N I) (P : Nat → I → List N → Option S)
-    (qfuel : Nat) (s : St N I F V S) : Res N I F (Option (St N I F V S)) := do
-  match ← drainQueue C σ qfuel s with
-  | none => pure none
-  | some s =>
-    match s.fdeps.drainAll with
-    | none => throw .trackerCrash
+    (qfuel : Nat) (s : St N I F V S) : Res N I F (Option (St N I F V S)) :=
+  match drainQueue C σ qfuel s with
+  | .error e => .error e
+  | .ok none => .ok none
+  | .ok (some s1) =>
+    match s1.fdeps.drainAll with
+    | none => .error .trackerCrash
     | some (ws, fd) =>
-      let s ← attemptAll C σ (σ.sortW ws) { s with fdeps := fd }
-      let s ← if s.refused then pure s else promptAll C P (σ.sortI s.ideps.unmetDependencies) s
-      match s.ideps.drainAll with
-      | none => throw .trackerCrash
-      | some (ws, idp) =>
-        let s ← attemptAll C σ (σ.sortR ws) { s with ideps := idp }
-        pure (some s)
+      match attemptAll C σ (σ.sortW ws) { s1 with fdeps := fd } with
+      | .error e => .error e
+      | .ok s2 =>
+        match (if s2.refused then .ok s2
+               else promptAll C P (σ.sortI s2.ideps.unmetDependencies) s2) with
+        | .error e => .error e
+        | .ok s3 =>
+          match s3.ideps.drainAll with
+          | none => .error .trackerCrash
+          | some (ws', idp) =>
+            match attemptAll C σ (σ.sortR ws') { s3 with ideps := idp } with
+            | .error e => .error e
+            | .ok s4 => .ok (some s4)
 
 def solveLoop (C : Cat N I F V S) (σ : Sched N I) (P : Nat → I → List N → Option S) (qfuel : Nat) :
     Nat → St N I F V S → Res N I F (Option (St N I F V S))
   | 0, _ => .ok none
   | fuel + 1, s =>
-    if loopCond s then do
-      match ← iteration C σ P qfuel s with
-      | none => pure none
-      | some s => solveLoop C σ P qfuel fuel s
+    if loopCond s then
+      match iteration C σ P qfuel s with
+      | .error e => .error e
+      | .ok none => .ok none
+      | .ok (some s1) => solveLoop C σ P qfuel fuel s1
     else .ok (some s)
 
 def addForms (C : Cat N I F V S) (σ : Sched N I) : List F → St N I F V S → Res N I F (St N I F V S)
   | [], s => .ok s
-  | f :: fs, s => do
-    let s ← addForm C σ s f false
-    addForms C σ fs s
+  | f :: fs, s =>
+    match addForm C σ s f false with
+    | .error e => .error e
+    | .ok s1 => addForms C σ fs s1
 
+/-- requested extra fields: `self._add_unattempted(self._field_map[field_name])`, then
+`self._solving_fields |= set(field_names)` -/
 def addExtra (σ : Sched N I) : List N → St N I F V S → Res N I F (St N I F V S)
   | [], s => .ok s
   | n :: ns, s =>
-    if n ∈ s.fmap then addExtra σ ns { s with queue := σ.sortQ (s.queue ++ [n]) }
+    if n ∈ s.fmap then
+      addExtra σ ns { s with queue := σ.sortQ (s.queue ++ [n]),
+                             solving := if n ∈ s.solving then s.solving else s.solving ++ [n] }
     else .error (.keyError n)
 
 /-- `Solver(input_config, form_list, prompt)` -/
@@ -245,11 +277,13 @@ def St.solved (s : St N I F V S) : Bool :=
 /-- `Solver.solve(form_names, field_names)`; `none` = out of fuel. -/
 def solve (C : Cat N I F V S) (σ : Sched N I) (P : Option (Nat → I → List N → Option S))
     (inp : List (I × S)) (forms : List F) (extra : List N) (fuel qfuel : Nat) :
-    Res N I F (Option (St N I F V S)) := do
-  let s ← addForms C σ forms (initSt inp P.isSome)
-  let s ← addExtra σ extra s
-  let s := { s with solving := s.solving ++ extra.filter (fun n => !(s.solving.contains n)) }
-  solveLoop C σ (P.getD fun _ _ _ => none) qfuel fuel s
+    Res N I F (Option (St N I F V S)) :=
+  match addForms C σ forms (initSt inp P.isSome) with
+  | .error e => .error e
+  | .ok s =>
+    match addExtra σ extra s with
+    | .error e => .error e
+    | .ok s1 => solveLoop C σ (P.getD fun _ _ _ => none) qfuel fuel s1
 
 end
 end HabuVerif
